@@ -251,9 +251,19 @@ type Schema struct {
 	Contract *FuncContract
 }
 
+// Ghost: a specification-only scalar variable (bool or int). Contracts of external / interface functions describe
+// how a call changes it (modifies <name>; ensures relating old(<name>) and <name>), which lets a caller's contract
+// speak about the history of its calls ("no write failed").
+type Ghost struct {
+	Pkg, Name, Type string
+	File            string
+	Line            int
+}
+
 type SpecFile struct {
 	Pkg       string
 	File      string
+	Ghosts    []*Ghost
 	Specs     []*SpecFunc
 	Axioms    []*Axiom
 	Lemmas    []*Lemma
@@ -320,7 +330,7 @@ func (p *parser) ident() (string, error) {
 	return t.text, nil
 }
 
-var itemKeywords = map[string]bool{"strmap": true, "spec": true, "axiom": true, "lemma": true, "func": true, "external": true, "iface": true, "table": true, "schema": true}
+var itemKeywords = map[string]bool{"strmap": true, "spec": true, "axiom": true, "lemma": true, "func": true, "external": true, "iface": true, "table": true, "schema": true, "ghost": true}
 var clauseKeywords = map[string]bool{"requires": true, "ensures": true, "modifies": true, "loop": true, "invariant": true, "pure": true, "trusted": true, "props": true, "use": true, "bounded": true, "assumes": true, "allowpanic": true, "ownstate": true, "before": true, "nobody": true, "uses": true, "keys": true, "sem": true, "local": true, "absfloat": true, "cite": true, "reveal": true, "yields": true}
 
 func parseSpecFile(pkg, file, src string) (*SpecFile, error) {
@@ -343,6 +353,20 @@ func parseSpecFile(pkg, file, src string) (*SpecFile, error) {
 				return nil, err
 			}
 			sf.Specs = append(sf.Specs, s)
+		case "ghost":
+			p.next()
+			name, err := p.ident()
+			if err != nil {
+				return nil, err
+			}
+			ty, err := p.ident()
+			if err != nil {
+				return nil, err
+			}
+			if ty != "bool" && ty != "int" {
+				return nil, p.errf("ghost variables are of type bool or int")
+			}
+			sf.Ghosts = append(sf.Ghosts, &Ghost{Pkg: pkg, Name: name, Type: ty, File: file, Line: t.line})
 		case "axiom":
 			p.next()
 			name, err := p.ident()
@@ -471,6 +495,30 @@ func (p *parser) identList() ([]string, error) {
 		id, err := p.ident()
 		if err != nil {
 			return nil, err
+		}
+		out = append(out, id)
+		if !p.acceptP(",") {
+			break
+		}
+	}
+	return out, nil
+}
+
+// carriedList: names of loop-carried variables; `alias=src` names the variable src of the source as alias (needed
+// when the plain name means something else in the contract, e.g. a parameter's entry value)
+func (p *parser) carriedList() ([]string, error) {
+	var out []string
+	for {
+		id, err := p.ident()
+		if err != nil {
+			return nil, err
+		}
+		if p.acceptP("=") {
+			src, err := p.ident()
+			if err != nil {
+				return nil, err
+			}
+			id = id + "=" + src
 		}
 		out = append(out, id)
 		if !p.acceptP(",") {
@@ -931,7 +979,7 @@ func (p *parser) parseContract(sf *SpecFile) (*FuncContract, error) {
 					case "iter":
 						curLoop.Iter, err = p.ident()
 					case "carried":
-						curLoop.Carried, err = p.identList()
+						curLoop.Carried, err = p.carriedList()
 					default:
 						return nil, p.errf("unknown loop role %s", role)
 					}
